@@ -39,6 +39,8 @@ func Substr[T ~string](str T, offset, length int) T {
 			return Null[T]()
 		}
 		end = newLength
+	} else if length > len(str)-offset {
+		end = len(str)
 	} else {
 		end = offset + length
 	}
